@@ -20,7 +20,7 @@ clean_demo=$(go test -count=1 -run 'TestSeed|Test' ./zz_demo_test.go 2>&1 | tail
 names=$(grep -o '^func Test[A-Za-z0-9_]*' zz_demo_test.go | sed 's/func //' | paste -sd'|')
 go test -count=1 -run "^($names)\$" . > /tmp/seed-$P-$K-clean.log 2>&1; clean_rc=$?
 git apply $OUT/patch$K.diff || { echo "RESULT $P/$K patch-does-not-apply"; git checkout -q -- .; rm -f zz_demo_test.go; exit 0; }
-go test -count=1 -run "^($names)\$" . > /tmp/seed-$P-$K-demo.log 2>&1; demo_rc=$?
+RACE=""; [ "$P" = "C18" ] && RACE="-race"; CGO_ENABLED=1 go test $RACE -count=1 -run "^($names)\$" . > /tmp/seed-$P-$K-demo.log 2>&1; demo_rc=$?
 rm -f zz_demo_test.go
 go build ./... > /tmp/seed-$P-$K-suite.log 2>&1 && go test -count=1 ./... >> /tmp/seed-$P-$K-suite.log 2>&1; suite_rc=$?
 caught=""
